@@ -509,6 +509,16 @@ def _do_op(sim, cat, stores, regs, models, op):
                     exact = dict(before)
                     for kk, src in mm["keys"].items():
                         exact.setdefault(kk, src)
+                    # keys that an earlier UN-ACKNOWLEDGED add may or may not have inserted: if this
+                    # member brings the same key with another plasmid, which of the two the registry
+                    # holds is not determined (first-wins applies to what was really inserted)
+                    if "lo" in model:
+                        for kk, src in (mm.get("hi") or mm["keys"]).items():
+                            if kk in model["hi"] and kk not in model["lo"] and model["hi"][kk] != src:
+                                model.setdefault("loose", set()).add(kk)
+                    for kk in mm.get("loose", ()):
+                        if kk not in (model.get("lo") if "lo" in model else model["keys"]):
+                            model.setdefault("loose", set()).add(kk)
                     model.setdefault("members", []).append(op["member"])
                     _propagate_growth(models, r, {kk: src for kk, src in hi.items() if kk not in before})
                     try:
@@ -786,6 +796,8 @@ def execute(case):
             probes["abandoned-iteration" if op["op"] == "iter_partial" else "nested-iteration"] += 1
         if op["op"] == "drop" and i > 0 and ops[i - 1]["op"] == "add" and ops[i - 1].get("member") == op.get("r"):
             probes["temporary-member-released-after-add"] += 1
+        if op["op"] == "add" and op.get("retry") and i > 0 and events[i - 1]["faulted"]:
+            probes["add-retried-after-fault"] += 1
         if op["op"] == "add":
             probes["add"] += 1
             if op.get("overlap"):
@@ -1086,6 +1098,11 @@ def gen_case(spec):
                 keysets[c].setdefault(kk, src)
             if faulty and fl.random() < 0.35:
                 _plan_fault(fl, faults, op, handles[m], len(mk))
+                if fl.random() < 0.5:
+                    # the caller catches the error and adds the same member again, then looks
+                    add({"op": "add", "r": c, "member": m, "via": op["via"], "overlap": True, "repeat": True, "retry": True})
+                    handles[c][1].append(m)
+                    add({"op": g.choice(["iter", "len", "keys"]), "r": c})
         elif x < 0.34 and live:
             h = g.choice(live)
             if handles[h][0] != "combined" and g.random() < 0.5:
@@ -1178,7 +1195,7 @@ def catalogue_summary(case):
     return {"dirs": [{"id": d["id"], "base": d["base"], "extensions": d["extensions"], "entries": [e["name"] + ("/" if e["kind"] == "dir" else "") for e in d["entries"]]} for d in case["catalogue"]["dirs"]], "store": case.get("store")}
 
 
-EXPECTED_PROBES = {"C20": ["temporary-member-released-after-add", "abandoned-iteration", "same-plasmid-under-two-stems", "file-with-extra-label", "add-overlapping-member", "add-repeated-member", "second-equal-embedded-instance", "key:present", "key:absent-random", "key:unsupported-ext", "key:subdir", "key:non-string", "key:key-with-extension", "op-after-fault", "op-on-registry-that-saw-a-fault"]}
+EXPECTED_PROBES = {"C20": ["add-retried-after-fault", "temporary-member-released-after-add", "abandoned-iteration", "same-plasmid-under-two-stems", "file-with-extra-label", "add-overlapping-member", "add-repeated-member", "second-equal-embedded-instance", "key:present", "key:absent-random", "key:unsupported-ext", "key:subdir", "key:non-string", "key:key-with-extension", "op-after-fault", "op-on-registry-that-saw-a-fault"]}
 
 
 def coverage_extra(prop, stats, probes):
